@@ -10,15 +10,15 @@ Inductive g_builder := BLookup | BBreakpadSym | BBinary | BExtraDebuginfo.
 Inductive g_prov :=
 | GBuilt (b : g_builder)            (* lookup(module, kind) / breakpad_sym_lookup(m) / binary_lookup(m) / extra_debuginfo_lookup(m) *)
 | GMoz (p : g_prov)                 (* moz_lookup(<p>.clone()) *)
-| GUnknownLookup (why : string).    (* anything else *)
+| GUnknownLookup.                   (* anything else; the site's s_why says what *)
 (* the joined string *)
 Inductive g_arg :=
 | ACacheRel (p : g_prov) | AServerRel (p : g_prov)
 | ACodeInfoPath                     (* code_info_breakpad_sym_lookup(m)? *)
-| AUnknown (why : string).
+| AUnknown.
 (* the root it is joined onto *)
-Inductive g_root := RSymbolDir | RCacheDir | RServerUrl | RUnknown (why : string).
-Record g_site := { s_file : string; s_fn : string; s_text : string; s_root : g_root; s_arg : g_arg }.
+Inductive g_root := RSymbolDir | RCacheDir | RServerUrl | RUnknown.
+Record g_site := { s_file : string; s_fn : string; s_text : string; s_root : g_root; s_arg : g_arg; s_why : string }.
 
 Definition eval_builder (b : g_builder) (m : module_view) (k : kind) : option file_lookup :=
   match b with
@@ -35,21 +35,26 @@ Fixpoint eval_prov (p : g_prov) (m : module_view) (k : kind) : option file_looku
               | Some l => match g_moz_lookup l with Ret l' => Some l' | _ => None end
               | None => None
               end
-  | GUnknownLookup _ => None
+  | GUnknownLookup => None
   end.
 Definition eval_arg (a : g_arg) (m : module_view) (k : kind) : option str :=
   match a with
   | ACacheRel p => option_map cache_rel (eval_prov p m k)
   | AServerRel p => option_map server_rel (eval_prov p m k)
   | ACodeInfoPath => g_code_info_breakpad_sym_lookup m
-  | AUnknown _ => None
+  | AUnknown => None
   end.
 
 Fixpoint known_prov (p : g_prov) : bool :=
-  match p with GBuilt _ => true | GMoz q => known_prov q | GUnknownLookup _ => false end.
+  match p with GBuilt _ => true | GMoz q => known_prov q | GUnknownLookup => false end.
 Definition known_arg (a : g_arg) : bool :=
-  match a with ACacheRel p | AServerRel p => known_prov p | ACodeInfoPath => true | AUnknown _ => false end.
-Definition known_root (r : g_root) : bool := match r with RUnknown _ => false | _ => true end.
+  match a with ACacheRel p | AServerRel p => known_prov p | ACodeInfoPath => true | AUnknown => false end.
+Definition known_root (r : g_root) : bool := match r with RUnknown => false | _ => true end.
 Definition known_site (s : g_site) : bool := known_root (s_root s) && known_arg (s_arg s).
 (* the sites the obligation complains about (printed by Coq when it is not []) *)
 Definition unknown_sites (l : list g_site) : list g_site := filter (fun s => negb (known_site s)) l.
+
+(* fn names as bytes (Gen/C17Flow.v g_flow_table is the string-free copy of g_consumer_joins the driver uses) *)
+Definition bytes_of_string (s : string) : list Z :=
+  map (fun a => Z.of_N (Ascii.N_of_ascii a)) (list_ascii_of_string s).
+Definition flow_row (s : g_site) : list Z * g_root * g_arg := (bytes_of_string (s_fn s), s_root s, s_arg s).
